@@ -2,4 +2,5 @@ INIT GenInitQuick
 NEXT GenNext
 CONSTANT HdrSets <- QuickHdrSets
 CONSTANT Methods <- AllMethods
+CONSTANT SeqDom <- QuickSeqDom
 CONSTANT Schemes <- AllSchemes
